@@ -258,7 +258,9 @@ fn run_dropped_arm(cfg: &Cfg, index: u64, stats: &mut Stats) {
     let mut rng = Rng::for_case(cfg.seed, "C01/dropped-arms", index);
     // sizes and positions are walked systematically, the rest is random
     let n = 2 + (index as usize % 19); // 2 ..= 20
-    let dropped = (index as usize / 19) % n;
+    // positions from both ends towards the middle: 0, n-1, 1, n-2, .. (the quick tier must reach the late positions)
+    let step = (index as usize / 19) % n;
+    let dropped = if step % 2 == 0 { step / 2 } else { n - 1 - step / 2 };
     let shape = rng.below(4);
     let mut order: Vec<usize> = (0..n).collect();
     if shape == 1 {
